@@ -421,6 +421,16 @@ func c17StringField(m any, field string) (string, bool) {
 	return f.String(), true
 }
 
+// c17MsgJSON: the message as proto JSON, so that a case line is a self-contained replay.
+func c17MsgJSON(w *World, m sdk.Msg) json.RawMessage {
+	bz, err := w.App.AppCodec().MarshalInterfaceJSON(m)
+	if err != nil {
+		b, _ := json.Marshal(err.Error())
+		return b
+	}
+	return bz
+}
+
 func c17ValidateBasic(m sdk.Msg) string {
 	if vb, ok := m.(sdk.HasValidateBasic); ok {
 		if err := vb.ValidateBasic(); err != nil {
@@ -617,6 +627,7 @@ func runC17(t *testing.T, seed int64, n int, out *Out) {
 	type gated struct{ url, module, name, field string }
 	var gs []gated
 	var open []string
+	registered := [][]any{} // [module, message type, has an Authority field, gated through field]
 	nElys := 0
 	covered := map[string]bool{}
 	for _, u := range urls {
@@ -640,6 +651,8 @@ func runC17(t *testing.T, seed int64, n int, out *Out) {
 			}
 			field = f
 		}
+		_, hasAuth := c17StringField(pm, "Authority")
+		registered = append(registered, []any{mod, name, hasAuth, field})
 		if field == "" {
 			open = append(open, strings.TrimPrefix(u, "/elys."))
 			continue
@@ -669,7 +682,7 @@ func runC17(t *testing.T, seed int64, n int, out *Out) {
 	}
 	// keys are derived from the seed, so these stay valid when the pair is rebuilt
 	signers := []sgn{{"fresh", p.A.Accts[5]}, {"owner", p.A.Accts[0]}, {"feeder", p.SA.Feeder}}
-	out.Line(J{"t": "c17.begin", "id": 0, "gov": p.A.Gov, "registeredElysMsgs": nElys, "gated": len(gs), "open": open,
+	out.Line(J{"t": "c17.begin", "id": 0, "gov": p.A.Gov, "registeredElysMsgs": nElys, "gated": len(gs), "open": open, "registered": registered,
 		"stores": c17StoreNames(p.A), "signers": []string{p.A.Accts[5].Addr.String(), p.A.Accts[0].Addr.String(), p.SA.Feeder.Addr.String()}})
 
 	for _, g := range gs {
@@ -704,7 +717,7 @@ func runC17(t *testing.T, seed int64, n int, out *Out) {
 				out.Line(J{"t": "c17.case", "id": 0, "kind": "gov", "module": g.module, "msg": g.name, "url": g.url, "field": g.field,
 					"variant": variant, "signerKind": sk.kind, "signer": s.Addr.String(), "fieldValue": got, "gov": p.A.Gov,
 					"code": r.Code, "log": clip(r.Log, 220), "changed": r.Changed, "vb": vb, "blockErr": r.BlockErr,
-					"guardHit": strings.Contains(r.Log, "invalid authority"), "nontrivial": true})
+					"guardHit": strings.Contains(r.Log, "invalid authority"), "body": c17MsgJSON(p.A, msg), "nontrivial": true})
 				verdict := "refused"
 				if r.Code == 0 {
 					verdict = "ACCEPTED"
@@ -762,7 +775,7 @@ func runC17(t *testing.T, seed int64, n int, out *Out) {
 			r := q.probe(TxReq{Signer: x.s, Msgs: []sdk.Msg{msg}})
 			out.Line(J{"t": "c17.case", "id": id, "kind": "owner", "module": sc.module, "msg": sc.msg, "url": sdk.MsgTypeURL(msg), "field": sc.field,
 				"variant": x.variant, "signerKind": q.A.Name(x.s.Addr.String()), "signer": x.s.Addr.String(), "fieldValue": x.who, "owner": owner.Addr.String(),
-				"object": objA, "code": r.Code, "log": clip(r.Log, 220), "changed": r.Changed, "vb": vb, "blockErr": r.BlockErr, "nontrivial": true})
+				"object": objA, "code": r.Code, "log": clip(r.Log, 220), "changed": r.Changed, "vb": vb, "blockErr": r.BlockErr, "body": c17MsgJSON(q.A, msg), "nontrivial": true})
 			verdict := "refused"
 			if r.Code == 0 {
 				verdict = "ACCEPTED"
@@ -783,7 +796,7 @@ func runC17(t *testing.T, seed int64, n int, out *Out) {
 		r := q.probe(TxReq{Signer: owner, Msgs: []sdk.Msg{msg}})
 		out.Line(J{"t": "c17.case", "id": id, "kind": "owner", "module": sc.module, "msg": sc.msg, "url": sdk.MsgTypeURL(msg), "field": sc.field,
 			"variant": "owner", "signerKind": "u0", "signer": owner.Addr.String(), "fieldValue": owner.Addr.String(), "owner": owner.Addr.String(),
-			"object": objA, "code": r.Code, "log": clip(r.Log, 220), "changed": r.Changed, "vb": c17ValidateBasic(msg), "blockErr": r.BlockErr, "nontrivial": true})
+			"object": objA, "code": r.Code, "log": clip(r.Log, 220), "changed": r.Changed, "vb": c17ValidateBasic(msg), "blockErr": r.BlockErr, "body": c17MsgJSON(q.A, msg), "nontrivial": true})
 		if r.Code == 0 {
 			stats["owner/owner/ok"]++
 			if len(r.Changed) > 0 {
